@@ -178,7 +178,11 @@ def pollTask (s : State) (now : Nat) (seq : Nat) (id : Nat) : State × Nat × Li
         match r with
         | .hit d => (s, seq, [.resp q d])
         | .miss =>
-          ({ s with wantlist := (s.wantlist.insert k).1,
+          let (w, fresh) := s.wantlist.insert k
+          let peers := if fresh then
+              KMap.tab s.peers.keys (fun p => (s.peers[p]?).map (fun ps => { ps with wl := ps.wl.wantedAgain k }))
+            else s.peers
+          ({ s with wantlist := w, peers := peers,
                     waiters := s.waiters.insert k ((s.waiters[k]?.getD []) ++ [q]) }, seq, [])
         | _ => (s, seq, [.err q 1])
       | .done r, .put bs =>
